@@ -141,6 +141,73 @@ func c06Run(r *Run) {
 	paramWriters := map[pw]token.Pos{}
 	sliceWriters := map[pw]token.Pos{} // functions that write cells of a []*ZVal parameter in place
 
+	// helpers that hand out a cell of an array's slot list (existingSlot(arr, key) *ZVal): their result is
+	// a slot-list cell wherever it is used
+	cellReturners := map[*types.Func]bool{}
+	for _, p := range pkgs {
+		info := p.TypesInfo
+		for _, fd := range funcDecls(p) {
+			fn, _ := info.Defs[fd.Name].(*types.Func)
+			if fn == nil || fd.Body == nil || fn.Name() == "FindSlotByIntKey" {
+				continue
+			}
+			sig := fn.Type().(*types.Signature)
+			if sig.Results().Len() == 0 || !isZ(sig.Results().At(0).Type()) {
+				continue
+			}
+			fromList := map[types.Object]bool{}
+			isListExpr := func(e ast.Expr) bool {
+				switch x := ast.Unparen(e).(type) {
+				case *ast.IndexExpr:
+					if se, ok := ast.Unparen(x.X).(*ast.SelectorExpr); ok && se.Sel.Name == "List" && isArr(info.TypeOf(se.X)) {
+						return true
+					}
+				case *ast.CallExpr:
+					if cal, ok := calleeOf(info, x).(*types.Func); ok && cal.Name() == "FindSlotByIntKey" {
+						return true
+					}
+				case *ast.Ident:
+					return fromList[info.Uses[x]]
+				}
+				return false
+			}
+			ast.Inspect(fd.Body, func(n ast.Node) bool {
+				switch x := n.(type) {
+				case *ast.RangeStmt:
+					if se, ok := ast.Unparen(x.X).(*ast.SelectorExpr); ok && se.Sel.Name == "List" && isArr(info.TypeOf(se.X)) {
+						if id, ok := x.Value.(*ast.Ident); ok {
+							if o := info.Defs[id]; o != nil {
+								fromList[o] = true
+							}
+						}
+					}
+				case *ast.AssignStmt:
+					if len(x.Rhs) == 1 && len(x.Lhs) >= 1 && isListExpr(x.Rhs[0]) {
+						if id, ok := x.Lhs[0].(*ast.Ident); ok {
+							o := info.Defs[id]
+							if o == nil {
+								o = info.Uses[id]
+							}
+							if o != nil && isZ(o.Type()) {
+								fromList[o] = true
+							}
+						}
+					}
+				}
+				return true
+			})
+			ast.Inspect(fd.Body, func(n ast.Node) bool {
+				if _, isLit := n.(*ast.FuncLit); isLit {
+					return false
+				}
+				if rs, ok := n.(*ast.ReturnStmt); ok && len(rs.Results) >= 1 && isListExpr(rs.Results[0]) {
+					cellReturners[fn] = true
+				}
+				return true
+			})
+		}
+	}
+	r.stat("slot_cell_returning_helpers", len(cellReturners))
 	refPreds := c06RefPredicates(pkgs)
 	r.stat("ref_bound_predicates", len(refPreds))
 	for _, p := range pkgs {
@@ -214,6 +281,9 @@ func c06Run(r *Run) {
 					}
 				case *ast.CallExpr:
 					if cal, ok := calleeOf(info, x).(*types.Func); ok {
+						if cellReturners[cal] {
+							return oList
+						}
 						switch cal.Name() {
 						case "FindSlotByIntKey":
 							return oList
